@@ -266,10 +266,12 @@ def load_known():
         line = line.strip()
         if not line.startswith("finding:"):
             continue
-        # finding: property=C17 harness=<h> class=<cls> match=<regex over "msg || cfg-json"> :: text
-        m = re.match(r"finding:\s+property=(\S+)\s+harness=(\S+)\s+class=(\S+)\s+match=(.*?)\s+::\s+(.*)", line)
+        # finding: property=C17 harness=<h> class=<cls> match=<regex over "msg || cfg-json"> [replay=<trace file>] :: text
+        # with replay=: the finding is pinned to that decision trace, which every run of the check replays (the seed sweep
+        # does not meet it: the trace sets a cfg_fixed knob that exploration never varies)
+        m = re.match(r"finding:\s+property=(\S+)\s+harness=(\S+)\s+class=(\S+)\s+match=(.*?)(?:\s+replay=(\S+))?\s+::\s+(.*)", line)
         if m:
-            out.append({"property": m.group(1), "harness": m.group(2), "cls": m.group(3), "re": m.group(4), "text": m.group(5)})
+            out.append({"property": m.group(1), "harness": m.group(2), "cls": m.group(3), "re": m.group(4), "replay": m.group(5), "text": m.group(6)})
     return out
 
 
@@ -488,6 +490,25 @@ def main():
         reported.append({"harness": h, "run": v["run"], "cls": res["cls"], "msg": res["msg"], "replay": final, "minimisation": info})
     shutil.rmtree(trace_dir, ignore_errors=True)
     shutil.rmtree(trace_dir + "-g1", ignore_errors=True)
+
+    # ---------------- pinned known findings: replay their trace on the current tree
+    for k in known:
+        if k["property"] != pid or not k.get("replay") or k["harness"] not in harnesses or infra_gate:
+            continue
+        tr = os.path.join(VERIF, k["replay"])
+        rk = replay_once(k["harness"], tr, os.path.join(SCRATCH, "known-%d.json" % os.getpid()))
+        if rk["cls"] in INFRA_CLASSES:
+            infra_gate = "replay of the pinned known finding %s failed: %s" % (k["replay"], rk.get("msg"))
+        elif rk["cls"] == "OK":
+            log("known finding no longer reproduces on this tree: %s" % k["replay"])
+        elif match_known([k], pid, k["harness"], rk):
+            if k["text"] not in known_printed:
+                known_printed.append(k["text"])
+        else:
+            # the pinned scenario fails in another way than the listed finding: an ordinary violation
+            final = os.path.join(REPLAYS, "%s-%s-pinned-%s" % (pid, k["harness"], os.path.basename(k["replay"])))
+            shutil.copy(tr, final)
+            reported.append({"harness": k["harness"], "run": -1, "cls": rk["cls"], "msg": rk.get("msg", ""), "replay": final, "minimisation": {}})
 
     wall = time.time() - t_start
     if infra_gate:
